@@ -283,6 +283,13 @@ def run_case(case, seg, viol, stats, sample):
                 p += gene.cn_configs[gene.deletion_allele()].cn[1].get(r, 0)
         rc[r] = (round(max(0.0, g + rng.uniform(-case["noise"], case["noise"])), 2),
                  round(max(0.0, p + rng.uniform(-case["noise"], case["noise"])), 2) if len(gene.regions) > 1 else 0.0)
+    if len(gene.regions) > 1 and gene.deletion_allele() and rng.random() < 0.15:
+        # hardly any gene depth, pseudogene depth of two or more copies: only whole-gene deletions (and
+        # extra pseudogene copies) can explain it
+        k = rng.choice([2.0, 2.5, 3.0, 3.5, 4.0])
+        rc = {r: (round(max(0.0, rng.uniform(0, 0.15)), 2), round(k + rng.uniform(-0.2, 0.2), 2))
+              for r in gene.unique_regions}
+        cn = []
     fs = None
     if case["fusion_support"]:
         fs = {n: rng.choice([0.0, 0.05, 0.2, 0.6]) for n, c in gene.cn_configs.items()
